@@ -202,6 +202,18 @@ pub fn run_avx2(ctx: &Ctx) {
                 let p = lane_patterns(0.9);
                 [p[5], p[6], p[7], p[3]]
             };
+            // second round: every limb of every lane of both operands different from every other one, so that a
+            // permutation, blend or select that takes a limb or a lane from the wrong place cannot go unnoticed
+            let tag = |off: u32| -> Raw {
+                let mut r = [[0u32; 10]; 4];
+                for lane in 0..4 {
+                    for i in 0..10 {
+                        r[lane][i] = off + 1000 * lane as u32 + 10 * i as u32 + 1;
+                    }
+                }
+                r
+            };
+            for (a, b) in [(a, b), (tag(0), tag(500_000))] {
             let (xa, xb) = (v::Fx4::from_raw(&a), v::Fx4::from_raw(&b));
             for i in 0..v::SHUFFLES {
                 ctx.eval(1);
@@ -238,6 +250,7 @@ pub fn run_avx2(ctx: &Ctx) {
                 if v::Fx4::conditional_select(&xa, &xb, c).raw() != want || xa.conditional_assign(&xb, c).raw() != want {
                     report(ctx, "fx4.conditional_select", "select/assign".into(), json!({"kind": "avx2_select", "choice": c}));
                 }
+            }
             }
         }
         // ---- new / splat / split round trip on serial corner elements
@@ -406,6 +419,16 @@ pub fn run_ifma(ctx: &Ctx) {
         {
             let a: Raw = [pats(red_max)[1], pats(red_max)[2], pats(red_max)[3], pats(red_max)[4]];
             let b: Raw = [pats(red_max)[5], pats(red_max)[6], pats(red_max)[7], pats(red_max)[3]];
+            let tag = |off: u64| -> Raw {
+                let mut r = [[0u64; 5]; 4];
+                for lane in 0..4 {
+                    for i in 0..5 {
+                        r[lane][i] = off + 1000 * lane as u64 + 10 * i as u64 + 1;
+                    }
+                }
+                r
+            };
+            for (a, b) in [(a, b), (tag(0), tag(1 << 40))] {
             let (ua, ub) = (v::Ux4::from_raw(&a), v::Ux4::from_raw(&b));
             let (ra, rb) = (v::Rx4::from_raw(&a), v::Rx4::from_raw(&b));
             for i in 0..v::SHUFFLES {
@@ -437,6 +460,7 @@ pub fn run_ifma(ctx: &Ctx) {
                 if v::Rx4::conditional_select(&ra, &rb, c).raw() != want || ra.conditional_assign(&rb, c).raw() != want {
                     report("ifma.conditional_select", "select/assign".into(), json!({"kind": "ifma_select", "choice": c}));
                 }
+            }
             }
             let sp = crate::props::c01::spec();
             let lat: Vec<Vec<u64>> = (0..sp.n).map(|i| sp.lattice(i)).collect();
